@@ -50,3 +50,98 @@ package state
 //@   ensures legacy: feltIsZero(*classRoot) && !feltIsZero(*contractRoot) && verLess(core.blockVer(protocolVersion), *core.Ver0_14_0) ==> result == *contractRoot
 //@   ensures both: !feltIsZero(*classRoot) ==> result == poseidon3(*stateVersion0, *contractRoot, *classRoot)
 //@   ensures modern: feltIsZero(*classRoot) && !feltIsZero(*contractRoot) && !verLess(core.blockVer(protocolVersion), *core.Ver0_14_0) ==> result == poseidon3(*stateVersion0, *contractRoot, *classRoot)
+
+// ---- historical reads (C03) ------------------------------------------------------------------------
+// One history key family (a prefix) is an abstract log: histAt(n) says that block n wrote an entry,
+// histVal(n) is what it wrote. The database iterator is an ASSUMED contract over this log (its
+// position is ghost state); the in-memory back-end's iterator is proved against the same position
+// model in C15, Pebble is a dependency. What is proved here is the lookup logic built on top of it.
+//@ ghost func histAt(n uint64) bool
+//@ ghost func histVal(n uint64) []byte
+//@ ghost func be64of(b []byte) uint64
+//@ ghost var itValid bool
+//@ ghost var itPast bool
+//@ ghost var itAt uint64
+//@ ghost var itPrefixLen int
+//@ extern func encoding/binary.(bigEndian).AppendUint64
+//@   ensures len(result) == len(b) + 8 && be64of(result[len(b):]) == v
+//@ extern func encoding/binary.(bigEndian).Uint64
+//@   ensures result == be64of(b)
+//@ extern func github.com/NethermindEth/juno/db.KeyValueStore.NewIterator
+//@   assigns itValid, itPast, itAt, itPrefixLen
+//@   ensures result1 == nil ==> result0 != nil && !itValid && !itPast && itPrefixLen == len(prefix)
+//@ extern func github.com/NethermindEth/juno/db.Iterator.Close
+//@ extern func github.com/NethermindEth/juno/db.Iterator.Seek
+//@   requires len(key) == itPrefixLen + 8
+//@   assigns itValid, itPast, itAt
+//@   ensures result == itValid && itPast == !result
+//@   ensures found: result ==> histAt(itAt) && itAt >= be64of(key[itPrefixLen:]) && (forall j uint64 :: histAt(j) && j >= be64of(key[itPrefixLen:]) ==> j >= itAt)
+//@   ensures none: !result ==> (forall j uint64 :: histAt(j) ==> j < be64of(key[itPrefixLen:]))
+//@ extern func github.com/NethermindEth/juno/db.Iterator.Prev
+//@   assigns itValid, itPast, itAt
+//@   ensures result == itValid && !itPast
+//@   ensures back: old(itValid) && result ==> histAt(itAt) && itAt < old(itAt) && (forall j uint64 :: histAt(j) && j < old(itAt) ==> j <= itAt)
+//@   ensures first: old(itValid) && !result ==> (forall j uint64 :: histAt(j) ==> j >= old(itAt))
+//@   ensures last: old(itPast) && result ==> histAt(itAt) && (forall j uint64 :: histAt(j) ==> j <= itAt)
+//@   ensures empty: old(itPast) && !result ==> (forall j uint64 :: !histAt(j))
+//@   ensures unpositioned: !old(itValid) && !old(itPast) ==> !result
+//@ extern func github.com/NethermindEth/juno/db.Iterator.Key
+//@   requires itValid
+//@   ensures len(result) == itPrefixLen + 8 && be64of(result[itPrefixLen:]) == itAt
+//@ extern func github.com/NethermindEth/juno/db.Iterator.Value
+//@   requires itValid
+//@   ensures result1 == nil ==> result0 == histVal(itAt)
+
+// valueAt hands the callback the entry of the LATEST block at or below blockNum, and reports
+// ErrNoHistoryValue exactly when there is none.
+//@ func (*StateReader).valueAt
+//@   props C03
+//@   arith int
+//@   requires s != nil && s.db != nil && s.db.disk != nil
+//@   modifies *
+//@   assigns itValid, itPast, itAt, itPrefixLen
+//@   callsite cb@1: written: histAt(itAt)
+//@   callsite cb@1: at_or_below: itAt <= blockNum
+//@   callsite cb@1: latest: forall j uint64 :: histAt(j) && j <= blockNum ==> j <= itAt
+//@   callsite cb@1: value: val == histVal(itAt)
+//@   ensures none: (forall j uint64 :: histAt(j) ==> j > blockNum) ==> calls(cb) == old(calls(cb)) && result != nil
+//@   ensures some: (exists j uint64 :: histAt(j) && j <= blockNum) && result == nil ==> calls(cb) == old(calls(cb)) + 1
+//@   ensures atmostonce: calls(cb) <= old(calls(cb)) + 1
+
+// The block that last wrote at or below upToBlock (0 when there is none).
+//@ func (*StateReader).lastUpdatedBlockNumber
+//@   props C03
+//@   arith int
+//@   requires s != nil && s.db != nil && s.db.disk != nil
+//@   modifies *
+//@   assigns itValid, itPast, itAt, itPrefixLen
+//@   ensures latest: result1 == nil && (exists j uint64 :: histAt(j) && j <= upToBlock) ==> histAt(result0) && result0 <= upToBlock && (forall j uint64 :: histAt(j) && j <= upToBlock ==> j <= result0)
+//@   ensures none: result1 == nil && (forall j uint64 :: histAt(j) ==> j > upToBlock) ==> result0 == 0
+
+// A contract exists at a block iff it was deployed at or before it; unknown contracts do not exist.
+//@ ghost func deployedHeight(addr felt.Felt) uint64
+//@ ghost func contractKnown(addr felt.Felt) bool
+//@ func GetContract
+//@   trusted
+//@   ensures known: result1 == nil ==> contractKnown(*addr) && result0.DeployedHeight == deployedHeight(*addr)
+//@   ensures unknown: result1 != nil && isNotFound(result1) ==> !contractKnown(*addr)
+//@ ghost func isNotFound(err error) bool
+//@ extern func errors.Is
+//@   ensures err == target ==> result
+//@   ensures err == nil && target != nil ==> !result
+//@   ensures target == db.ErrKeyNotFound ==> result == isNotFound(err)
+//@ func (*StateReader).ContractDeployedAt
+//@   props C03
+//@   arith int
+//@   requires s != nil && s.db != nil && addr != nil
+//@   ensures deployed: result1 == nil && result0 ==> contractKnown(*addr) && deployedHeight(*addr) <= blockNum
+//@   ensures later: result1 == nil && contractKnown(*addr) && deployedHeight(*addr) > blockNum ==> !result0
+//@   ensures exact: result1 == nil && contractKnown(*addr) ==> (result0 <==> deployedHeight(*addr) <= blockNum)
+
+// A historical view answers "not found" for a contract that did not exist yet at its block.
+//@ func (*stateHistory).checkDeployed
+//@   props C03
+//@   arith int
+//@   requires s != nil && s.state != nil && s.state.db != nil && addr != nil
+//@   ensures present: result == nil ==> contractKnown(*addr) && deployedHeight(*addr) <= s.blockNum
+//@   ensures not_yet: contractKnown(*addr) && deployedHeight(*addr) > s.blockNum ==> result != nil
